@@ -27,9 +27,12 @@ package serverinterceptors
 //@   ensures [deadline-arm-does-not-wait-for-handler] viaCtx ==> calls(on("lock", lock)) == 0 && result0 == nil
 //@   ensures [finished-first] !viaCtx ==> result0 == resp && result1 == err
 //@   ensures [one-handler-goroutine] calls("go UnaryTimeoutInterceptor$1$1") == 1 && calls(cancel) == 1
+// the handler goroutine never lets a panic escape (an escaped panic on this goroutine ends the process),
+// whatever the state of the context by then
 //@ func UnaryTimeoutInterceptor$1$1
 //@   prop C02
 //@   may-panic handler
+//@   nopanic
 //@   ensures [runs-handler] calls(handler, ctx, req) == 1
 //@   ensures [done-or-panic] (panicked(handler) ==> calls("send") == 1 && calls("close") == 0) && (!panicked(handler) ==> calls("close") == 1 && calls("send") == 0 && resp == ret(handler, 0) && err == ret(handler, 1))
 
